@@ -345,6 +345,26 @@ func genEntry(r *rng, tier string) interface{} {
 		return genEntryWordbreak(r)
 	}
 	t := genTree(r)
+	if r.chance(8) {
+		// the trees of C01 with the fork's features: several words per flag, custom delimiters, non-POSIX flag sets,
+		// tolerated unknown flags - with the words those generators build, through the real entry point
+		var pi parseIn
+		switch r.intn(3) {
+		case 0:
+			pi = genParseFork(r, t)
+		case 1:
+			pi = genParseNonPosix(r, t)
+		default:
+			pi = genParseUnknown(r, t)
+		}
+		in := entryIn{Tree: pi.Tree, Variant: r.intn(64), Env: map[string]string{}, Desc: "plain text"}
+		in.Ancestor = pick(r, entryAncestors)
+		in.Args = append([]string{pick(r, entryShells), pi.Tree.Cmds[0].Name}, pi.Words...)
+		if r.chance(30) {
+			in.Args[len(in.Args)-1] = pick(r, []string{"-", "--", "-\xff", "-delim:", "--files=", "-=", "-:", "--color:"})
+		}
+		return in
+	}
 	in := entryIn{Tree: t, Variant: r.intn(64), Env: map[string]string{}}
 	in.Ancestor = pick(r, entryAncestors)
 	in.Desc = pick(r, []string{"plain text", "plain text", "a\tb", "x\x1cy", "two\nlines", "日本語", "\x01\x02\x03", `\xff\xfe`, "", " ", "a: b", "'q' \"dq\" $v `t`", strings.Repeat("é", 90)})
